@@ -47,6 +47,7 @@ type simConn struct {
 	dialUs     int64
 	owner      int
 	sawError   bool // a Read/Write already returned an error to the client
+	errUs      int64 // ... first at this time (fake us)
 	deliveredCorr map[int32]bool // correlation ids of responses put into the client's read buffer
 	deliveredAt   map[int32]int64 // ... and when (fake us)
 	clientCloseUs int64 // when the client closed the connection (0: it has not)
@@ -59,6 +60,9 @@ type simConn struct {
 
 func (c *simConn) markErr() {
 	c.mu.Lock()
+	if !c.sawError {
+		c.errUs = c.k.nowUs()
+	}
 	c.sawError = true
 	c.mu.Unlock()
 	lastTransportErrUs = c.k.nowUs()
